@@ -23,6 +23,7 @@ fn main() {
         "c13" => c13::run(&args),
         "c15" => c15::run(&args),
         "c16t" => c16t::run(&args),
+        "c17a" => c17a::run(&args),
         "c14" | "c03-maps" => c14::run(&args.sub, &args),
         "c19" => c19::run(&args),
         other => {
